@@ -116,13 +116,16 @@ def rand_params(rng):
     return E0, B0, Bp, V0
 
 
-def gen_qha_case(rng, thorough, kind=None, outside=None):
+def gen_qha_case(rng, thorough, kind=None, outside=None, offset=None, dT=None):
     """outside: None | 'below' | 'above' — the equilibrium volume at every temperature lies below / above the sampled volume grid
     by 2-10 % of the grid width (the free energies are still exactly an EOS, so an unconstrained least-squares fit recovers it)"""
     kind = rng.choice(KINDS) if kind is None else kind
     E00, B00, Bp0, V00 = rand_params(rng)
+    # the zero of energy is arbitrary (all-electron codes: thousands of eV per cell); the temperature step from 0.5 K to 50 K
+    offset = rng.choice([0.0, 0.0, 10.0, -10.0, 1e3, -1e3, 1e4, -1e4, -7870.0]) if offset is None else offset
+    E00 = E00 + offset
     nt = rng.randint(6, 16 if thorough else 12)
-    dT = rng.choice([5.0, 10.0, 20.0, 50.0])
+    dT = rng.choice([0.5, 1.0, 2.0, 5.0, 10.0, 20.0, 50.0]) if dT is None else dT
     t0 = rng.choice([0.0, 0.0, 100.0])
     temps = t0 + dT * np.arange(nt)
     if rng.random() < 0.25:
@@ -179,7 +182,7 @@ def gen_qha_case(rng, thorough, kind=None, outside=None):
     ent = np.array([[(t / (t + 90.0)) * (1.3 * q[0] + 0.4 * (v - vm) + 0.01 * (v - vm) ** 2) for v in vols] for t in temps])
     dV0dT = V00 * (a1 + 2 * a2 * tp)
     return dict(kind=kind, temps=temps, pars=pars, vols=vols, pressure=pressure, shape=shape, el=el, tmax=tmax, tmax_sel=tmax_sel, cv=cv, ent=ent,
-                q=q, vm=vm, dV0dT=dV0dT, outside=outside, el_params=(eE0, eB0, eBp, eV0))
+                q=q, vm=vm, dV0dT=dV0dT, outside=outside, el_params=(eE0, eB0, eBp, eV0), offset=offset, dT=dT)
 
 
 def build_inputs(c, units):
@@ -226,7 +229,11 @@ def check_untouched(run, site, before, arrs, info, when):
     after = snapshot(arrs)
     changed = [k for k in before if before[k] != after[k]]
     if changed:
-        run.violation(site, "caller-array-modified", "%s modified the caller's own array(s) %s (%s)" % (site, ", ".join(changed), when), info)
+        # (audit) the property does not speak about the caller's arrays: this is a statement of the model (`QHA.construct` copies its
+        # inputs, theorem repeated_construction); its end effect — a repeated analysis on the same arrays giving other results, +PV
+        # applied twice — is what the failing-input search below looks for.
+        run.broke("correspondence", "%s modified the caller's own array(s) %s (%s); the model copies its inputs" % (site, ", ".join(changed), when), info)
+        run.count("caller arrays modified by the implementation", section="oracle")
     return not changed
 
 
@@ -364,10 +371,13 @@ def main(run):
     # ---------------------------------------------------------------- QHA
     nq = 8000 if thorough else 40
     qcases = []
-    specs = [(k_, side) for k_ in KINDS for side in ("below", "above")]
-    specs += [(None, rng.choice([None, None, None, None, None, "below", "above"])) for _ in range(nq)]
-    for (k_, side) in specs:
-        c = gen_qha_case(rng, thorough, kind=k_, outside=side)
+    specs = [(k_, side, None, None) for k_ in KINDS for side in ("below", "above")]
+    # arbitrary zero of energy (all-electron total energies) and fine temperature grids: tolerances relative to |F| or to the change of F
+    # between neighbouring temperatures must not matter
+    specs += [(KINDS[0], None, -7870.0, 10.0), (KINDS[1], None, -10.0, 1.0), (KINDS[2], None, 1e4, 0.5), (None, None, -1e4, 2.0), (None, None, 0.0, 0.5), (None, None, 1e3, 50.0)]
+    specs += [(None, rng.choice([None, None, None, None, None, "below", "above"]), None, None) for _ in range(nq)]
+    for (k_, side, off_, dT_) in specs:
+        c = gen_qha_case(rng, thorough, kind=k_, outside=side, offset=off_, dT=dT_)
         fph = build_inputs(c, units)
         c["as_view"] = rng.random() < 0.4
         arrs = caller_arrays(c, fph, as_view=c["as_view"])
@@ -399,7 +409,7 @@ def main(run):
         lines.append("bulkgpa %d %s" % (num, fbs(Q._equiv_parameters[:, 1])))
         meta.append(("bulkgpa", (c, np.array(Q._equiv_bulk_modulus))))
         qcases.append((c, fph, qha))
-        info = dict(eos=c["kind"], nt=nt, nv=nv, pressure=c["pressure"], el_shape=c["shape"], t_max=c["tmax"], t_max_kind=c["tmax_sel"], equilibrium_volume=c["outside"] or "inside",
+        info = dict(eos=c["kind"], nt=nt, nv=nv, pressure=c["pressure"], el_shape=c["shape"], t_max=c["tmax"], t_max_kind=c["tmax_sel"], equilibrium_volume=c["outside"] or "inside", energy_offset_eV=c["offset"], temperature_step_K=c["dT"],
                     temperatures=c["temps"].tolist(), volumes=c["vols"].tolist())
         c["info"] = info
         run.count("caller arrays: " + ("strided views" if c["as_view"] else "own ndarrays"))
@@ -428,25 +438,30 @@ def main(run):
         run.count("electronic (%s)" % c["shape"])
         run.count("t_max " + c["tmax_sel"])
         run.count("equilibrium volume " + ("inside the volume grid" if c["outside"] is None else c["outside"] + " the volume grid"))
+        run.count("energy offset %g eV" % c["offset"])
+        run.count("temperature step %g K" % c["dT"])
         run.sample({k: v for k, v in info.items() if k not in ("temperatures", "volumes")})
 
         # ---- oracle on the implementation: recovery of the known parameters
         L = len(qha.volume_temperature)
         Vk, Ek, Bk = c["pars"]["V0"], c["pars"]["E0"], c["pars"]["B0"] * units.EVAngstromToGPa
         site = "PhonopyQHA"
-        # all fitted points, including the last one that only serves as right neighbour of the finite differences
-        vt, gt, bt = np.array(qha._qha._equiv_volumes), np.array(qha._qha._equiv_energies), np.array(qha._qha._equiv_bulk_modulus)
-        nfit_ = len(vt)
-        errV = float(np.abs(vt / Vk[:nfit_] - 1).max())
-        errG = float(np.abs(gt - Ek[:nfit_]).max())
-        errB = float(np.abs(bt / Bk[:nfit_] - 1).max())
-        if not (np.array_equal(vt[:L], np.array(qha.volume_temperature)) and np.array_equal(gt[:L], np.array(qha.gibbs_temperature)) and np.array_equal(bt[:L], np.array(qha.bulk_modulus_temperature))):
-            run.violation(site, "public-slices", "volume/gibbs/bulk_modulus_temperature are not the leading part of the fitted arrays", info)
+        # public per-temperature results; the last fitted point (right neighbour of the finite differences only) is hidden state: its
+        # end effect is the thermal expansion / C_P of the last public temperature, checked below
+        vt, gt, bt = np.array(qha.volume_temperature), np.array(qha.gibbs_temperature), np.array(qha.bulk_modulus_temperature)
+        errV = float(np.abs(vt / Vk[:L] - 1).max())
+        errG = float(np.abs(gt - Ek[:L]).max())
+        errB = float(np.abs(bt / Bk[:L] - 1).max())
+        hv, hg, hb = np.array(qha._qha._equiv_volumes), np.array(qha._qha._equiv_energies), np.array(qha._qha._equiv_bulk_modulus)
+        if not (np.array_equal(hv[:L], vt) and np.array_equal(hg[:L], gt) and np.array_equal(hb[:L], bt)):
+            run.broke("correspondence", "volume/gibbs/bulk_modulus_temperature are not the leading part of the fitted arrays the model's finite differences were fed with", info)
         run.cov["oracle"]["max recovery error V (rel)"] = max(run.cov["oracle"].get("max recovery error V (rel)", 0.0), errV)
         run.cov["oracle"]["max recovery error G (eV)"] = max(run.cov["oracle"].get("max recovery error G (eV)", 0.0), errG)
         run.cov["oracle"]["max recovery error B (rel)"] = max(run.cov["oracle"].get("max recovery error B (rel)", 0.0), errB)
         nonconv = False
-        if errV > 1e-9 or errG > 1e-9 * max(1.0, float(np.abs(Ek).max())) or errB > 1e-7:
+        nfit_ = len(hv)
+        err_hidden = max(float(np.abs(hv / Vk[:nfit_] - 1).max()), float(np.abs(hb / Bk[:nfit_] - 1).max()) * 1e-2)
+        if errV > 1e-9 or errG > 1e-9 * max(1.0, float(np.abs(Ek).max())) or errB > 1e-7 or err_hidden > 1e-9:
             fes = np.array(qha._qha._free_energies)
             pars_impl = np.array(qha._qha._equiv_parameters)
             bad_t = [i_ for i_ in range(len(pars_impl))
@@ -476,14 +491,14 @@ def main(run):
         dts = np.diff(T).min()
         te = np.array(qha.thermal_expansion)
         cp = np.array(qha.heat_capacity_P_numerical)
-        if len(te) != L or np.abs(te - np.array(beta_k)).max() > 2e-9 / dts:
+        if len(te) != L or np.abs(te - np.array(beta_k)).max() > 2e-10 / dts + 1e-6 * float(np.abs(np.array(beta_k)).max()):
             run.violation(site, "thermal-expansion", "thermal expansion differs from the central difference of the known V(T) by %.3g" % np.abs(te - np.array(beta_k)).max(), info)
-        cptol = 4e-9 * max(1.0, float(np.abs(Ek).max())) * units.EvTokJmol * 1000 * float(T[:L + 1].max()) / dts ** 2
+        # second differences of G amplify its rounding noise (~1e-13 |G|) by T/dT^2
+        cptol = max(1e-6 * float(np.abs(np.array(cp_k)).max()), 4e-11 * max(1.0, float(np.abs(Ek).max())) * units.EvTokJmol * 1000 * float(T[:L + 1].max()) / dts ** 2)
         if len(cp) != L or np.abs(cp - np.array(cp_k)).max() > cptol:
             run.violation(site, "heat-capacity-P", "C_P differs from -T d2G/dT2 of the known G(T) by %.3g (tolerance %.3g)" % (np.abs(cp - np.array(cp_k)).max(), cptol), info)
         # C_P (polyfit) = C_V(V_i) + T_i (dV/dT)(dS/dV) with the KNOWN quartics and the known quadratic V(T)
-        Qo = qha._qha
-        cpp = np.array(Qo._cp_polyfit[:L], dtype="double")
+        cpp = np.array(qha.heat_capacity_P_polyfit, dtype="double") if c["shape"] == "V" else None
         cp_known = [0.0]
         for i in range(1, L):
             t, vv = T[i], Vk[i]
@@ -491,7 +506,7 @@ def main(run):
             dsdv_k = (t / (t + 90.0)) * (0.4 + 0.02 * (vv - c["vm"]))
             cp_known.append(cv_k + t * c["dV0dT"][i] * dsdv_k)
         cp_known = np.array(cp_known)
-        if len(cpp) != L or np.abs(cpp - cp_known).max() > 1e-6 * max(1.0, float(np.abs(cp_known).max())):
+        if cpp is not None and (len(cpp) != L or np.abs(cpp - cp_known).max() > 1e-6 * max(1.0, float(np.abs(cp_known).max())) + 2e-10 / dts * float(np.abs(np.array(T[:L]) * 60.0).max())):
             run.violation(site, "cp-polyfit", "heat_capacity_P_polyfit differs from C_V(V) + T (dV/dT)(dS/dV) of the known functions by %.3g" % np.abs(cpp - cp_known).max(), info)
         # Grueneisen parameter from the known functions: beta K_T / (C_V/V in GPa/K)
         gam = np.array(qha.gruneisen_temperature, dtype="double")
@@ -519,6 +534,15 @@ def main(run):
             for nm in ("volume_temperature", "gibbs_temperature", "bulk_modulus_temperature", "thermal_expansion"):
                 if not close(getattr(other, nm), getattr(qha, nm), float(np.abs(np.array(getattr(qha, nm))).max()), 1e-10):
                     run.violation("PhonopyQHA", "electronic-shape", "%s differs between shape (V) and shape (T,V) with identical rows" % nm, c["info"])
+        # the zero of energy is arbitrary: shifting the electronic energies by X shifts G by X and leaves V(T), B(T), thermal expansion alone
+        X = rng.choice([1e3, -1e3, -7870.0, 12.5])
+        shifted = run_qha(c, fph, el=np.array(c["el"]) + X)
+        sc_e = max(abs(X), float(np.abs(np.array(qha.gibbs_temperature)).max()), 1.0)
+        if (not close(shifted.volume_temperature, qha.volume_temperature, float(np.abs(qha.volume_temperature).max()))
+                or not close(shifted.bulk_modulus_temperature, qha.bulk_modulus_temperature, float(np.abs(qha.bulk_modulus_temperature).max()), 1e-7)
+                or not close(np.array(shifted.gibbs_temperature) - X, qha.gibbs_temperature, sc_e)
+                or not close(shifted.thermal_expansion, qha.thermal_expansion, float(np.abs(np.array(qha.thermal_expansion)).max()) + 2e-10 / float(np.diff(c["temps"]).min()), 1e-6)):
+            run.violation("PhonopyQHA", "energy-offset", "shifting all energies by %g eV changes V(T), B(T) or the thermal expansion, or G(T) does not shift by the same amount" % X, c["info"])
         full = run_qha(c, fph, tmax=None)
         Lc = len(qha.volume_temperature)
         if not close(np.array(full.volume_temperature)[:Lc], qha.volume_temperature, float(np.abs(qha.volume_temperature).max()), 1e-12):
@@ -580,7 +604,7 @@ def main(run):
             if c["shape"] == "TV":
                 try:
                     qha.heat_capacity_P_polyfit
-                    run.violation("PhonopyQHA.heat_capacity_P_polyfit", "no-error-for-TV", "no NotImplementedError for electronic energies of shape (T,V)", c["info"])
+                    run.broke("correspondence", "heat_capacity_P_polyfit available for electronic energies of shape (T,V); model (cpPolyfitAvailable): NotImplementedError", c["info"])
                 except NotImplementedError:
                     pass
                 impl_cp = np.array(Q._cp_polyfit[:mlen], dtype="double")
